@@ -84,6 +84,13 @@ mut("c19-realloc-charges-delta-only", "C19", "sandbox/src/alloc.rs",
     None, None,
     "EQUIVALENT-ish refactor: realloc charges only the growth instead of old+new; still correct: the check must stay silent", expect="silent")
 
+mut("c19-child-peak-read-early", "C19", "sandbox/src/child.rs",
+    None, None,
+    "child reads get_max() before handling the request: memory_used under-reports (seen through the sandbox)")
+mut("c19-child-reset-after-handle", "C19", "sandbox/src/child.rs",
+    None, None,
+    "child resets the peak after handling instead of before: memory_used under-reports (seen through the sandbox)")
+
 # ---------------- C20 ----------------
 mut("c20-write-in-place", "C20", "cli/src/config.rs",
     None, None,
@@ -163,6 +170,20 @@ def _(src):
     s = src("sandbox/src/frame.rs")
     s = s.replace("let len = u32::to_ne_bytes(bytes.len() as u32);", "let len = u32::to_ne_bytes(bytes.len() as u16 as u32);")
     return {"sandbox/src/frame.rs": s}
+
+@special("c19-child-peak-read-early")
+def _(src):
+    s = src("sandbox/src/child.rs")
+    s = s.replace("        let start = Arc::new(Mutex::new(Instant::now()));\n        let result = panic::catch_unwind", "        let start = Arc::new(Mutex::new(Instant::now()));\n        let memory_used = alloc.get_max();\n        let result = panic::catch_unwind")
+    s = s.replace("        .map_err(|_| ErrorResponse::Panic(panic_message.lock().unwrap().clone()));\n\n        let memory_used = alloc.get_max();\n", "        .map_err(|_| ErrorResponse::Panic(panic_message.lock().unwrap().clone()));\n\n")
+    return {"sandbox/src/child.rs": s}
+
+@special("c19-child-reset-after-handle")
+def _(src):
+    s = src("sandbox/src/child.rs")
+    s = s.replace("    loop {\n        alloc.reset_max();\n\n        let start", "    loop {\n        let start")
+    s = s.replace("        .map_err(|_| ErrorResponse::Panic(panic_message.lock().unwrap().clone()));\n\n        let memory_used = alloc.get_max();\n", "        .map_err(|_| ErrorResponse::Panic(panic_message.lock().unwrap().clone()));\n\n        alloc.reset_max();\n        let memory_used = alloc.get_max();\n")
+    return {"sandbox/src/child.rs": s}
 
 @special("c19-realloc-charges-delta-only")
 def _(src):
